@@ -622,6 +622,18 @@ Proof.
   vm_compute. intros E. discriminate E.
 Qed.
 
+Definition witness_none_stage : config :=
+  {| ctype := "sift";
+     cstore := Node [("max_imfs"%string, Leaf (VInt 3)); ("extrema_opts"%string, Leaf VNone)] |}.
+
+Theorem yaml_file_roundtrip_v0_refuted : exists c,
+  tree_exportable (cstore c) = true /\ file_roundtrip c = roundtrip_spec c
+  /\ file_roundtrip_v0 c <> roundtrip_spec c.
+Proof.
+  exists witness_none_stage. split; [vm_compute; reflexivity|].
+  split; [vm_compute; reflexivity|]. vm_compute. intros E. discriminate E.
+Qed.
+
 Theorem yaml_roundtrips_instance : forall c, tree_exportable (cstore c) = true ->
   file_roundtrip c = roundtrip_spec c /\ text_roundtrip c = roundtrip_spec c.
 Proof.
